@@ -31,14 +31,18 @@ type plDatagram struct {
 }
 
 type plCase struct {
-	Proto     string         `json:"proto"`
-	Workers   int            `json:"workers"`
-	UDPSize   int            `json:"udpsize"`
+	Proto   string `json:"proto"`
+	Workers int    `json:"workers"`
+	UDPSize int    `json:"udpsize"`
 	// OtherUDPSize: receive buffer size of the three other protocols (0 = same as UDPSize); the settings are independent
 	OtherUDPSize int `json:"other_udpsize,omitempty"`
 	// Churn > 0: after every Churn-th datagram of a phase the longest-running worker is told to quit and a new one
 	// is started while traffic flows (the mechanism dynamic-workers uses to shrink and grow the pool)
-	Churn     int            `json:"churn,omitempty"`
+	Churn int `json:"churn,omitempty"`
+	// LazyDrain: the queue consumer reads only after the phase's workers have finished (slow consumer), so every
+	// published message stays queued while the workers go on to decode and encode all later datagrams
+	LazyDrain bool           `json:"lazy_drain,omitempty"`
+	ExactFit  bool           `json:"exact_fit,omitempty"` // UDPSize was derived from a datagram's own length
 	Filter    []uint32       `json:"filter,omitempty"`
 	Exporters []wire.Hex     `json:"exporters"`
 	Phases    [][]plDatagram `json:"phases"`
@@ -48,7 +52,7 @@ type plCase struct {
 const c12Rule = "case = protocol pipeline (ipfix | nf9 | nf5 | sflow), 1..16 real worker goroutines, UDP size (mostly 1500), 1..6 exporters, and phases: announce phases (each template key at most once) " +
 	"alternating with data phases of 20..800 datagrams with strongly mixed sizes (tens of octets next to ~1400) and unique (exporter, sequence number), incl. identical template refreshes, unknown-template, truncated, corrupted, reserved-id, garbage and oversize datagrams; " +
 	"in half of the cases one or two OTHER protocols' pipelines run at the same time on self-contained cross traffic (own workers, pools, queues; their receive buffer size drawn independently), in a third workers are told to quit and are replaced while traffic flows (every 1st..50th datagram); " +
-	"injected exactly as the receive loop does (pooled buffer, copy, send on the real UDP channel), real MQ channels drained concurrently, workers joined per phase; half of the cases run on the -race build of the driver; " +
+	"injected exactly as the receive loop does (pooled buffer, copy, send on the real UDP channel), real MQ channels drained concurrently or, in half of the cases, only after the workers are joined (slow consumer: a message that aliases a reused buffer is then overwritten for certain), workers joined per phase; half of the cases run on the -race build of the driver; " +
 	"oracle = per phase the multiset of published payloads equals, byte for byte, the payloads obtained by decoding each datagram on its own in the harness against a replica cache holding the templates of earlier phases " +
 	"(sFlow: after blanking the collection timestamp), for the pipeline under test and for every cross pipeline; no race report, no crash; DecodedCount delta within [decodes without error, decodes returning a message]; " +
 	"non-trivial = some data phase has more datagrams than workers and datagram sizes differing by > 4x (a worker reuses buffers across sizes); distinct by hash"
@@ -70,8 +74,9 @@ type plKey struct {
 func genPipeline(t *rapid.T, proto string, envs map[string]*wire.GenEnv, maxPhaseLen int) plCase {
 	c := plCase{Proto: proto}
 	c.Workers = rapid.OneOf(rapid.IntRange(1, 4), rapid.IntRange(1, 16)).Draw(t, "workers")
-	c.UDPSize = rapid.SampledFrom([]int{1500, 1500, 1500, 1500, 600, 2048, 9000}).Draw(t, "udpsize")
+	c.UDPSize = rapid.SampledFrom([]int{1500, 1500, 1500, 1500, 600, 2048, 9000, 9000, 65535}).Draw(t, "udpsize")
 	c.Race = rapid.Bool().Draw(t, "race")
+	c.LazyDrain = rapid.Bool().Draw(t, "lazydrain")
 	if rapid.IntRange(0, 2).Draw(t, "withchurn") == 0 {
 		c.Churn = rapid.SampledFrom([]int{1, 2, 3, 7, 20, 50}).Draw(t, "churn")
 	}
@@ -233,6 +238,10 @@ func genPipeline(t *rapid.T, proto string, envs map[string]*wire.GenEnv, maxPhas
 				m.Proto, m.Time, m.Domain, m.Count = proto, 1700000000, uint32(key.exp), 1
 				m.Seq = nextSeq()
 				nsets := rapid.SampledFrom([]int{1, 1, 2, 3, 6}).Draw(t, "nsets")
+				if c.UDPSize >= 9000 && rapid.IntRange(0, 11).Draw(t, "jumbo") == 0 {
+					// jumbo datagrams (several KB of records, tens to hundreds of KB of JSON)
+					nsets = rapid.SampledFrom([]int{8, 12, 20, 40}).Draw(t, "jumbosets")
+				}
 				for s := 0; s < nsets; s++ {
 					m.Sets = append(m.Sets, key.sets[rapid.IntRange(0, len(key.sets)-1).Draw(t, "whichset")])
 				}
@@ -352,6 +361,22 @@ func genPipeline(t *rapid.T, proto string, envs map[string]*wire.GenEnv, maxPhas
 			c.Phases = append(c.Phases, withCross(data))
 		}
 	}
+	// boundary of the receive buffer: its size is set to the length of one of the case's own datagrams (or one
+	// octet less / more), so some datagrams fill the buffer exactly, some are cut by one octet, some just fit
+	if rapid.IntRange(0, 2).Draw(t, "exactfit") == 0 {
+		var lens []int
+		for _, ph := range c.Phases {
+			for _, d := range ph {
+				if d.Proto == "" && (d.Class == "valid" || d.Class == "partial" || d.Class == "mutated") && len(d.Data) >= 64 && len(d.Data) <= 9000 {
+					lens = append(lens, len(d.Data))
+				}
+			}
+		}
+		if len(lens) > 0 {
+			c.UDPSize = lens[rapid.IntRange(0, len(lens)-1).Draw(t, "fitwhich")] + rapid.SampledFrom([]int{0, 0, 0, -1, 1}).Draw(t, "fitdelta")
+			c.ExactFit = true
+		}
+	}
 	return c
 }
 
@@ -430,7 +455,7 @@ func runPipeline(prop string, c *plCase) (v verdict, sig string, err error) {
 	if c.Workers < 1 || c.UDPSize < 1 || len(c.Exporters) == 0 {
 		return v, "", fmt.Errorf("bad case")
 	}
-	req := drvRequest{Op: "pipeline", Proto: c.Proto, Workers: c.Workers, UDPSize: c.UDPSize, OtherUDPSize: c.OtherUDPSize, Churn: c.Churn, Filter: c.Filter, ResetCache: true}
+	req := drvRequest{Op: "pipeline", Proto: c.Proto, Workers: c.Workers, UDPSize: c.UDPSize, OtherUDPSize: c.OtherUDPSize, Churn: c.Churn, LazyDrain: c.LazyDrain, Filter: c.Filter, ResetCache: true}
 	for _, ph := range c.Phases {
 		for _, d := range ph {
 			if d.Exp < 0 || d.Exp >= len(c.Exporters) {
@@ -605,6 +630,8 @@ func runPipeline(prop string, c *plCase) (v verdict, sig string, err error) {
 	v.label(classMix, "class-mix")
 	v.label(c.OtherUDPSize > 0 && c.OtherUDPSize != c.UDPSize, "independent-udp-sizes")
 	v.label(c.Churn > 0, "worker-churn")
+	v.label(c.LazyDrain, "slow-consumer")
+	v.label(c.ExactFit, "udp-size-fitted-to-a-datagram")
 	if prop == "C13" {
 		v.NT = classMix
 	} else {
